@@ -62,6 +62,7 @@ type FuncVer struct {
 	stepBudget int
 	heapSorts  map[string]*Sort
 	heapTypes  map[string]types.Type
+	mapKeySorts map[string]*Sort
 	ghostLocals map[string]*ghostLocal
 	pointees    map[string]pointee
 	trustedCalls map[string]bool // callees whose preconditions are assumed, not proved, at this function's call sites
@@ -995,6 +996,8 @@ func (fv *FuncVer) mapHeaps(st *State, mt *types.Map) (hk, vk, lk string, hs, vs
 	vs = c.ArraySort(SInt, c.ArraySort(ks, es))
 	ls = c.ArraySort(SInt, c.W)
 	fv.heapSorts["MH:"+k], fv.heapSorts["MV:"+k], fv.heapSorts["ML:"+k] = hs, vs, ls
+	fv.heapTypes["MV:"+k] = mt.Elem()
+	fv.mapKeySorts["MV:"+k] = ks
 	return "MH:" + k, "MV:" + k, "ML:" + k, hs, vs, ls
 }
 
